@@ -118,6 +118,7 @@ func (ts *TimedSched) sched() {
 				heap.Push(&tasks, task)
 				// properly reset timer to trigger based on the top element
 				stopped := timer.Stop()
+				verifYield(6)
 				if !stopped && !drained {
 					<-timer.C
 				}
@@ -152,6 +153,7 @@ func (ts *TimedSched) prepend() {
 			// swap slices to minimize time under lock
 			tasks, ts.prependTasks = ts.prependTasks, tasks[:0]
 			ts.prependLock.Unlock()
+			verifYield(7)
 
 			for k := range tasks {
 				select {
